@@ -124,17 +124,25 @@ class Cron(addons.AddonMainTask, block.SBlock):
         reset = Flag(False)
         reload = Flag(True)     # reload will also initialize the index
         short_sleep = False     # alternative sleep function used => do not compute overhead
+        reloaded = False        # the index must be recomputed after a reload
         while True:
             if reload.test_clear():
                 timetable = sorted(_SET24.union(self._alarms))
                 tlen = len(timetable)
                 self.log_debug("time schedule reloaded")
                 index = None
+                reloaded = True
 
             nowdt = self.dtnow()
             nowt = nowdt.time()
             if index is None:
                 index = bisect.bisect_left(timetable, nowt) % tlen
+                if reloaded:
+                    reloaded = False
+                    # a wakeup time may have passed unnoticed while the reload was pending
+                    for blk in set().union(*self._alarms.values()):
+                        assert hasattr(blk, 'recalc')
+                        blk.recalc(nowdt)
             wakeup = timetable[index]
             self.log_debug("wakeup time: %s", wakeup)
 
